@@ -79,8 +79,8 @@ def ill_formed(raw, rng):
 
 def _bad_defaults(ft):
     t = ft if isinstance(ft, str) else (ft.get("type") if isinstance(ft, dict) else "union")
-    table = {"int": ["x", 1.5, None, [1]], "long": ["x", None], "string": [1, None, ["a"]], "boolean": [1, "true", None],
-             "null": [0, "null"], "float": ["abc", None, [1.0]], "double": ["abc", None], "bytes": [1, None, [1]],
+    table = {"int": ["x", 1.5, None, [1], True], "long": ["x", None, False], "string": [1, None, ["a"]], "boolean": [1, "true", None],
+             "null": [0, "null"], "float": ["abc", None, [1.0], True], "double": ["abc", None, False], "bytes": [1, None, [1]],
              "array": [1, "x", {"a": 1}], "map": [1, "x", [1]], "record": [1, "x", [1]], "enum": [1, None], "fixed": [1, None]}
     if t == "union":
         names = [b if isinstance(b, str) else b.get("type") for b in ft]
